@@ -65,6 +65,9 @@ class FaultEngine:
                         action = (name,)
                     else:
                         action = (name, arg)
+            elif name == "broker_failover" and arg[0] == "serving_then":
+                # the broker answers this request normally and dies arg[2] seconds later
+                self.world.later(arg[2], self._apply_env, name, [broker.node_id, arg[1]])
             elif name == "broker_failover" and arg[0] in ("serving", "serving_after"):
                 # the broker serving this request dies: before looking at it, or after applying
                 # it and before answering
